@@ -961,6 +961,8 @@ class Interp:
             return h.hooks[f[1]](self, args, kwargs)
         if isinstance(f, tuple) and f and f[0] in ('namedtuple', 'regexmethod'):
             return self.apply(f, args, kwargs)
+        if isinstance(f, tuple) and len(f) == 2 and f[0] == 'class' and isinstance(f[1], str) and (f[1] in h.hooks or f[1] in h.module.classes):
+            return self.apply(f, args, kwargs)
         if isinstance(f, tuple) and f and f[0] == 'weak':
             return f[1]
         if isinstance(f, tuple) and f and f[0] == 'symmethod':
@@ -1025,6 +1027,16 @@ class Interp:
             f = f[1]
         if isinstance(f, Closure):
             return self.call(f, list(args), kwargs)
+        if isinstance(f, tuple) and len(f) == 2 and f[0] == 'class' and isinstance(f[1], str):
+            # a class object that travelled through a local / a table before being called
+            if f[1] in h.hooks:
+                return h.hooks[f[1]](self, list(args), kwargs)
+            if f[1] in h.module.classes:
+                ref = h.alloc(f[1])
+                init = h.module.method(f[1], '__init__')
+                if init is not None:
+                    self.call(Closure(init.node, {}, ref, init.cls), list(args), kwargs)
+                return ref
         if isinstance(f, tuple) and f and f[0] == 'hook':
             return h.hooks[f[1]](self, list(args), kwargs)
         if isinstance(f, tuple) and f and f[0] == 'namedtuple':
